@@ -103,7 +103,7 @@ class C09(Check):
 
     def strata(self, tier):
         return [('S-alldelayed', 4), ('S-mixed', 3), ('S-heun', 1), ('S-conn-single', 2), ('S-conn-multi', 1),
-                ('S-step', 2), ('S-hub', 1), ('S-matrix', 1), ('S-fortran', 0.25), ('S-big', 1)]      # a few f2py builds per quick run
+                ('S-step', 2), ('S-hub', 1), ('S-matrix', 1), ('S-fortran', 0.25), ('S-big', 1), ('S-long', 0.5)]      # a few f2py builds per quick run
 
     def generate(self, rng, stratum, tier):
         dt = rng.choice([1e-3, 0.01, 0.05])
@@ -135,6 +135,21 @@ class C09(Check):
                               delays=delays, hier=rng.random() < 0.2,
                               # multi-operator nodes: the delayed source variable is also read by a second operator of its node
                               readouts=(0.5, 0.0, 0.5) if rng.random() < 0.3 else None)
+        if stratum == 'S-long':
+            # delays of more than 512 steps (and runs longer than them) on small models
+            def very_long(r):
+                if r.random() < 0.7:
+                    n = r.choice([r.randint(515, 640), r.randint(2, 12)])
+                    return {'delay': (n + r.uniform(-0.45, 0.45)) * dt, 'dsteps': n}
+                return {}
+            spec = models.gen_net(rng, n_nodes=rng.randint(2, 4), libs=('lin', 'leak', 'integ'), max_edges=4, delays=very_long)
+            if not any(e[2].get('dsteps', 0) > 512 for e in spec['edges']) and spec['edges']:
+                n = rng.randint(515, 640)
+                spec['edges'][0][2].update({'delay': (n + rng.uniform(-0.45, 0.45)) * dt, 'dsteps': n})
+            cfg['m'] = 1
+            cfg['steps'] = rng.randint(660, 760)
+            cfg['prelude'] = None
+            cfg['mode'] = 'run'
         if stratum == 'S-big':
             # sizes that toy models never reach: 9-15 nodes, dozens of edges, delays of up to 70 steps, runs longer than them
             def long_delays(r):
